@@ -5,6 +5,7 @@ import (
 	"crypto/tls"
 	"crypto/x509"
 	"fmt"
+	"strconv"
 	"strings"
 	"time"
 
@@ -44,6 +45,16 @@ func routeInstances(tier string) []explore.Params {
 			pats = append(pats, "pD1000") // all dialled streams are parked before the first accept
 		}
 		return []explore.Params{{"pat": strings.Join(pats, ",")}}
+	}
+	if tier == "ids" { // explicit ids: one number outstanding in both directions at once; the edges of uint32
+		for _, pp := range [][2]string{{"hA0,pA0", "7,7"}, {"hD0,pD0", "7,7"}, {"hA0,pD1000", "7,7"}, {"hA1000,pA0", "7,7"}, {"hD0,pA2000", "7,7"},
+			{"hA0,hA0", "0,4294967295"}, {"pD0,pA0", "0,2147483648"}, {"hA0,pA0", "0,0"}} {
+			out = append(out, explore.Params{"pat": pp[0], "ids": pp[1]})
+		}
+		for _, a := range []string{"hA0", "pA0", "hD2000", "pD0"} {
+			out = append(out, explore.Params{"pat": a, "ids": "0"}, explore.Params{"pat": a, "ids": "4294967295"})
+		}
+		return out
 	}
 	if tier == "late" { // C06: the connection is used again, with bulk data in both directions, 6 s after it was dialled
 		for _, a := range []string{"hA0", "pA0", "hD2000", "pD4900"} {
@@ -117,11 +128,21 @@ func init() {
 			d := newDone(x)
 			x.Put("d", d)
 			for i, pat := range strings.Split(p["pat"], ",") {
-				id := uint32(10 + i)
+				slot := uint32(10 + i) // names the pattern in observations and verdict keys
+				id := slot
+				if l := strings.Split(p["ids"], ","); p["ids"] != "" && i < len(l) {
+					// explicit ids: the same number may be outstanding in both directions at once (each side allocates
+					// from its own counter), and ids are plain uint32 values
+					v, _ := strconv.ParseUint(l[i], 10, 32)
+					id = uint32(v)
+				}
 				ds, order, gap, start := parsePat(pat)
 				db, ddom := pr.side(ds)
 				ab, adom := pr.side(other(ds))
 				tag := fmt.Sprintf("id=%d", id)
+				if p["ids"] != "" {
+					tag += fmt.Sprintf("/pattern%d", i) // one number may be in use in both directions
+				}
 				x.Go(adom, func() {
 					if start > 0 {
 						x.Pause(start)
@@ -138,7 +159,7 @@ func init() {
 						return s
 					})
 				})
-				d.goIn(ddom, fmt.Sprintf("dial%d", id), func() {
+				d.goIn(ddom, fmt.Sprintf("dial%d", slot), func() {
 					if start > 0 {
 						x.Pause(start)
 					}
@@ -149,7 +170,7 @@ func init() {
 					cc, err := db.Dial(id)
 					x.Obs("dial%d err=%v", id, err != nil)
 					if err != nil {
-						x.Put(fmt.Sprintf("derr%d", id), fmt.Sprintf("Dial: %v after %v", err, x.Now()-t0))
+						x.Put(fmt.Sprintf("derr%d", slot), fmt.Sprintf("Dial: %v after %v", err, x.Now()-t0))
 						return
 					}
 					conns = append(conns, cc)
@@ -159,7 +180,7 @@ func init() {
 					got, err := pingTag(ctx, cc)
 					x.Obs("ping%d err=%v tag=%s", id, err != nil, got)
 					if err != nil {
-						x.Put(fmt.Sprintf("derr%d", id), fmt.Sprintf("first RPC: %v after %v", err, x.Now()-t0))
+						x.Put(fmt.Sprintf("derr%d", slot), fmt.Sprintf("first RPC: %v after %v", err, x.Now()-t0))
 						return
 					}
 					if got != tag {
